@@ -238,7 +238,14 @@ class _BytesIO:
         return pos
 
 
-SVG_TEXT = '<svg class="a b" id=\'i\' d="M0 0h1">caf\u00e9 100% &amp; #+?\n</svg>'      # a non-ASCII character, both quote styles, reserved characters
+SVG_TEXT = '<svg class="a b" id=\'i\' d="M0 0h1"><title>27" x 3\' = "q"</title>caf\u00e9 100% &amp; #+?\n</svg>'      # non-ASCII, both quote styles in tags and in text, reserved characters
+
+
+def _tags_requoted(raw):
+    """The document with the attribute delimiters inside tags normalised to one quote style; character data untouched."""
+    import re as _re
+    parts = _re.split(rb'(<[^>]*>)', raw)
+    return b''.join(p_.replace(b'"', b"'") if p_.startswith(b'<') else p_ for p_ in parts)
 PNG_MARK = bytes(range(256)) + b'\x89PNG'
 
 
@@ -282,8 +289,8 @@ def r2b(fx):
         raw = unquote_to_bytes(payload)
         if raw != SVG_MARK:
             exact.append(f'{kw}: decodes to {raw[:50]!r}')
-        if raw.replace(b"'", b'"') != SVG_MARK.replace(b"'", b'"'):
-            modulo.append(f'{kw}: decodes to {raw[:60]!r}')
+        if _tags_requoted(raw) != _tags_requoted(SVG_MARK):
+            modulo.append(f'{kw}: decodes to {raw[:90]!r}')
     yield ob('as_svg_data_uri: codings applied to the serialiser output', not exact, fn, got=exact[:2] or 'percent-decodes to the serialiser output',
              want='percent-decodes to exactly the bytes the SVG serialiser wrote')
     yield ob('as_svg_data_uri: percent-decodes to the serialiser output up to the quote style, in the declared charset; reserved characters encoded', not modulo, fn,
@@ -393,7 +400,7 @@ def r3(fx):
     fn = fx.fn('cli', 'build_config')
     for ext in sorted(wk):
         results = {}
-        for spell in (ext, ext.upper(), ext.title(), ext + 'z' if ext == 'svg' else ext):
+        for spell in (ext, ext.upper(), ext.title()) + (('svgz', 'SVGZ', 'SvgZ') if ext == 'svg' else ()):
             cfg = {k: v for k, v in defaults.items() if k not in consumed}
             results[spell] = bc(cfg, filename=f'out.dir/name.{spell}')
         base = results[ext]
